@@ -95,6 +95,7 @@ def run(ctx):
 
     # ---- row prefix / not-null on write_col paths ----------------------------------------------
     n_bin = 0
+    hdr_in_wc = set()
     for p in enumerate_paths(wc, max_visits=1):
         if p.end != "return":
             continue
@@ -116,17 +117,23 @@ def run(ctx):
         if not conds.get("bin"):
             continue
         n_bin += 1
-        hdr = [(pos, t) for pos, blk, t in p.calls() if (wire.RX_BYTEORDER.match(t["func"]["path"]) and "packet::PacketConn<" in (t.get("arg_tys") or [""])[0])]
+        # bytes put into the packet itself while a cell is offered (the row's own bytes are staged in self.data)
+        hdr = [(pos, t) for pos, blk, t in p.calls() if "packet::PacketConn<" in (t.get("arg_tys") or [""])[0] and wire.classify_call(p, pos, t) is not None]
+        hdr_bytes = wire.sym_bytes([wire.classify_call(p, pos, t) for pos, t in hdr])
         rs = [(pos, t) for pos, blk, t in p.calls() if cname(t["func"]).endswith("Vec::<T, A>::resize") and T.is_field(T.peel(p.arg(pos, 0)), "data")]
         enc = [(pos, t) for pos, blk, t in p.calls() if cname(t["func"]).endswith("ToMysqlValue::to_mysql_bin")]
         bits = [1 for blk in p.blocks for s in wc.blocks[blk]["stmts"] if s["k"] == "assign" and s["rv"]["k"] == "bin" and s["rv"]["op"] == "BitOr" and s["lhs"]["p"]]
         cls = classify_return(p)
         if conds.get("col0"):
-            ok = len(hdr) == 1 and T.is_const_int(p.arg(hdr[0][0], 1), 0) and len(rs) == 1 and hdr[0][0] < rs[0][0] and \
-                T.is_field(T.peel(p.arg(rs[0][0], 1)), "bitmap_len") and T.is_const_int(p.arg(rs[0][0], 2), 0)
-            if cls == "err" and not rs:
+            # the 00 row header is written exactly once per row: either here, before the bitmap is laid out, or in
+            # end_row in front of the staged bytes (decided below from the two functions together)
+            ok_hdr = hdr_bytes == [] or (hdr_bytes == [("c", 0)] and (not rs or hdr[0][0] < rs[0][0]))
+            ok = ok_hdr and len(rs) == 1 and T.is_field(T.peel(p.arg(rs[0][0], 1)), "bitmap_len") and T.is_const_int(p.arg(rs[0][0], 2), 0)
+            if cls == "err" and not rs and ok_hdr:
                 ok = True   # failed while writing the header
-            ctx.ob("C07.row-prefix", ok, "at column 0 the row must start with one 00 header byte and a zero-filled bitmap of bitmap_len bytes (header writes %d, resizes %d)" % (len(hdr), len(rs)),
+            if cls != "err" or rs:
+                hdr_in_wc.add(len(hdr_bytes))
+            ctx.ob("C07.row-prefix", ok, "at column 0 the row must start with a zero-filled bitmap of bitmap_len bytes, preceded by at most the 00 header byte (packet bytes %s, resizes %d)" % (wire.sym_str(hdr_bytes), len(rs)),
                    fn=wc.path, construct="row-start", where=wc.where(p.blocks[-1]), sample={"rule": "row-prefix", "conds": conds})
         elif conds.get("col0") is False:
             ctx.ob("C07.row-prefix", not hdr and not rs, "the row header / bitmap is (re)written at a column other than 0", fn=wc.path, construct="row-start-only-at-0", nontrivial=False)
@@ -146,6 +153,7 @@ def run(ctx):
     ctx.floor("C07.row-prefix", "binary-mode paths of write_col", n_bin, 6)
     # end_row: binary path writes the whole buffer, one packet end, then clear()
     n = 0
+    hdr_in_er = set()
     for p in enumerate_paths(er):
         if p.end != "return" or classify_return(p) != "ok":
             continue
@@ -157,18 +165,28 @@ def run(ctx):
         if not isbin:
             continue
         n += 1
-        wr = [(pos, t) for pos, blk, t in p.calls() if wire.RX_WRITE_ALL.search(t["func"]["path"])]
+        ems = [(pos, wire.classify_call(p, pos, t)) for pos, blk, t in p.calls() if "packet::PacketConn<" in (t.get("arg_tys") or [""])[0]]
+        ems = [(pos, e) for pos, e in ems if e is not None]
+        sb = wire.sym_bytes([e for _, e in ems])
         clr = [(pos, cname(t["func"]).split("::")[-1]) for pos, blk, t in p.calls() if re.search(r"Vec::<T, A>::(clear|truncate|drain|resize)$", cname(t["func"])) and T.is_field(T.peel(p.arg(pos, 0)), "data")]
-        endp = [pos for pos, blk, t in p.calls() if wire.RX_END_PACKET.search(cname(t["func"]))]
-        ok = len(wr) == 1 and len(endp) == 1 and wr[0][0] < endp[0] and len(clr) == 1 and clr[0][1] == "clear" and clr[0][0] > wr[0][0]
+        blobs = [x for x in sb if x[0] == "blob"]
+        lead = sb[:sb.index(blobs[0])] if blobs else None
+        ok = len(blobs) == 1 and sb[-1:] == [("end",)] and sb.index(blobs[0]) == len(sb) - 2 and lead in ([], [("c", 0)]) and len(clr) == 1 and clr[0][1] == "clear"
         if ok:
-            a = p.arg(wr[0][0], 1)
+            wpos = [pos for pos, e in ems if e.kind == "raw" and e.const_bytes() is None][-1]
+            ok = clr[0][0] > wpos
+            a = blobs[0][1]
             # the whole buffer: `&self.data[..]`, `&self.data` (deref coercion), `self.data.as_slice()`; no partial range
             partial = T.find(a, lambda x: isinstance(x, tuple) and x[0] == "agg" and re.search(r"ops::Range(From|To|Inclusive|ToInclusive)?$", x[2] or "") is not None)
-            ok = T.is_field(T.peel(a), "data") and partial is None
-        ctx.ob("C07.row-prefix", ok, "end_row (binary): writes %d, packet ends %d, buffer resets %s (need write_all(data[..]), one packet end, data.clear())" % (len(wr), len(endp), [c[1] for c in clr]),
-               fn=er.path, construct="row-end", where=er.where(p.blocks[-1]), sample={"rule": "row-prefix/end", "resets": [c[1] for c in clr]})
+            ok = ok and T.is_field(T.peel(a), "data") and partial is None
+            hdr_in_er.add(len(lead))
+        ctx.ob("C07.row-prefix", ok, "end_row (binary): packet bytes %s, buffer resets %s (need [00] data[..] then one packet end, then data.clear())" % (wire.sym_str(sb), [c[1] for c in clr]),
+               fn=er.path, construct="row-end", where=er.where(p.blocks[-1]), sample={"rule": "row-prefix/end", "bytes": wire.sym_str(sb), "resets": [c[1] for c in clr]})
     ctx.floor("C07.row-prefix", "binary Ok paths of end_row", n, 1)
+    # one 00 header per row packet, wherever it is written: at column 0 of write_col or in end_row in front of the row
+    ok = len(hdr_in_wc) == 1 and len(hdr_in_er) == 1 and sum(hdr_in_wc) + sum(hdr_in_er) == 1
+    ctx.ob("C07.row-prefix", ok, "a binary row packet must carry exactly one 00 header byte in front of the bitmap: write_col (column 0) writes %s, end_row writes %s" % (sorted(hdr_in_wc), sorted(hdr_in_er)),
+           fn=er.path, construct="row-header-once", where=er.where(0))
 
     # ---- layouts ------------------------------------------------------------------------------------
     ct = [a for k_, a in prog.adts.items() if k_.endswith("constants::ColumnType")][0]
